@@ -2,7 +2,10 @@ module owverif
 
 go 1.23
 
-require github.com/flowmatters/openwater-core v0.0.0
+require (
+	github.com/flowmatters/openwater-core v0.0.0
+	gonum.org/v1/hdf5 v0.0.0-20210714002203-8c5d23bc6946
+)
 
 require github.com/joelrahman/genny v0.0.0-20190825034740-e87a679b6495 // indirect
 
